@@ -36,6 +36,7 @@ CONSTANTS
   NodeTeardown,  \* TRUE: relays / exits may tear a circuit down on their own initiative
   MayVanish,     \* TRUE: nodes may disappear (C09: abandoned circuits)
   SweepRelays,   \* TRUE: do_remove also reclaims inactive relay entries (the code); FALSE: negative control
+  TestCells,     \* TRUE: originators may send speed-test request cells
   E2E,           \* TRUE: two circuits may be linked at a rendezvous point (hidden services)
   Aead,          \* TRUE: a layer only comes off if it authenticates (ChaCha20-Poly1305); FALSE: negative control
   CheckIdent,    \* TRUE: an answer must carry the identifier of the outstanding request (the code); FALSE: negative control
@@ -81,7 +82,7 @@ Init ==
   /\ pend = {} /\ net = {}
   /\ ctr = [msg |-> 0, cid |-> 0, ident |-> 0, eph |-> 0, data |-> 0, adv |-> 0]
   /\ now = 0 /\ sweepAt = [n \in Node |-> SweepEvery] /\ pingAt = [n \in Node |-> PingEvery]
-  /\ hist = [sent |-> EmptyF, exitLog |-> {}, origLog |-> {}, fwdEarly |-> EmptyF, joined |-> {}, links |-> {}]
+  /\ hist = [sent |-> EmptyF, exitLog |-> {}, origLog |-> {}, fwdEarly |-> EmptyF, joined |-> {}, links |-> {}, tests |-> {}]
   /\ budget = [loss |-> 0, dup |-> 0, adv |-> 0]
   /\ wire = {} /\ stepc = 0 /\ gone = {}
 
@@ -518,7 +519,48 @@ OnPing(d) ==
 OnPong(d) ==
   /\ d \in net /\ d.t = "cell" /\ d.dst \in Node /\ Accepted(d.dst, d) /\ d.m.t = "pong"
   /\ LET n == d.dst IN
-     /\ pingC' = [pingC EXCEPT ![n] = IF Has(@, d.m.ident) THEN Del(@, d.m.ident) ELSE @]
+     /\ pingC' = [pingC EXCEPT ![n] = IF Has(@, d.m.ident) /\ d.m.ident \notin hist.tests THEN Del(@, d.m.ident) ELSE @]
+     /\ circ' = [circ EXCEPT ![n] = Beat(@, n, d.cid)]
+  /\ Emit({d}, <<>>)
+  /\ UNCHANGED <<relay, exit, retryC, createdC, createC, pend, ctr, now, sweepAt, pingAt, hist, budget>>
+
+\* speed test cells (send_test_request / on_test_request / on_test_response); the TestRequestCache lives in pingC, the
+\* history set hist.tests tells the two kinds of identifier apart
+SendTest(o, cid) ==
+  /\ Cardinality(hist.tests) < MaxData
+  /\ Has(circ[o], cid) /\ CState(circ[o][cid]) = "READY"
+  /\ LET id == ctr.ident + 1
+         r  == OwnCell(o, cid, [t |-> "testreq", cid |-> cid, ident |-> id])
+     IN /\ circ' = [circ EXCEPT ![o] = Put(@, cid, r.circ)]
+        /\ pingC' = [pingC EXCEPT ![o] = Put(@, id, now + CacheTO)]
+        /\ hist' = [hist EXCEPT !.tests = @ \cup {id}]
+        /\ Emit({}, StampIds(<<r.cell>>))
+        /\ ctr' = [ctr EXCEPT !.ident = id, !.msg = BumpN(o, @, 1)]
+  /\ UNCHANGED <<relay, exit, retryC, createdC, createC, pend, now, sweepAt, pingAt, budget>>
+
+OnTestReq(d) ==
+  /\ d \in net /\ d.t = "cell" /\ d.dst \in Node /\ Accepted(d.dst, d) /\ d.m.t = "testreq"
+  /\ LET n == d.dst  cid == d.cid
+         e2eOwner == Has(circ[n], cid) /\ circ[n][cid].ctype \in {"RPD", "RPS"}
+     IN
+     IF ~Has(exit[n], cid) /\ ~e2eOwner THEN
+        /\ Emit({d}, <<>>) /\ UNCHANGED <<exit, ctr>> /\ circ' = [circ EXCEPT ![n] = Beat(@, n, cid)]
+     ELSE
+        LET resp == [t |-> "testresp", cid |-> cid, ident |-> d.m.ident]
+            cell == IF Has(exit[n], cid) THEN Cell(n, d.src, cid, FALSE, FALSE, <<Layer(exit[n][cid].key, B)>>, resp)
+                    ELSE [OwnCell(n, cid, resp).cell EXCEPT !.dst = d.src]
+        IN /\ exit' = IF Has(exit[n], cid) THEN [exit EXCEPT ![n] = Put(@, cid, [@[cid] EXCEPT !.act = now])] ELSE exit
+           /\ circ' = [circ EXCEPT ![n] = IF Has(@, cid) /\ ~Has(exit[n], cid)
+                                           THEN Beat(Put(@, cid, OwnCell(n, cid, resp).circ), n, cid) ELSE Beat(@, n, cid)]
+           /\ Emit({d}, StampIds(<<cell>>))
+           /\ ctr' = [ctr EXCEPT !.msg = Bump(@, 1)]
+  /\ UNCHANGED <<relay, retryC, createdC, createC, pingC, pend, now, sweepAt, pingAt, hist, budget>>
+
+OnTestResp(d) ==
+  /\ d \in net /\ d.t = "cell" /\ d.dst \in Node /\ Accepted(d.dst, d) /\ d.m.t = "testresp"
+  /\ LET n == d.dst IN
+     /\ pingC' = [pingC EXCEPT ![n] = IF Has(circ[n], d.cid) /\ Has(@, d.m.ident) /\ d.m.ident \in hist.tests
+                                      THEN Del(@, d.m.ident) ELSE @]
      /\ circ' = [circ EXCEPT ![n] = Beat(@, n, d.cid)]
   /\ Emit({d}, <<>>)
   /\ UNCHANGED <<relay, exit, retryC, createdC, createC, pend, ctr, now, sweepAt, pingAt, hist, budget>>
@@ -726,7 +768,8 @@ MangleAnswer(d, how, newcid) ==
 
 (* ------------------------------------------------- Next ------------------------------------------------- *)
 Deliver(d) == \/ d.dst \notin gone /\ (DropCell(d) \/ RelayCell(d) \/ OnCreate(d) \/ OnCreated(d) \/ OnExtend(d) \/ OnExtended(d)
-                                        \/ OnData(d) \/ OnPing(d) \/ OnPong(d) \/ OnDestroy(d))
+                                        \/ OnData(d) \/ OnPing(d) \/ OnPong(d) \/ OnTestReq(d) \/ OnTestResp(d)
+                                        \/ OnDestroy(d))
               \/ Sink(d)
 
 NextDeadline == IF {x \in Deadlines : x > now} = {} THEN MaxNow
@@ -743,6 +786,7 @@ Core ==
         /\ (IF g = 1 THEN "exit" \in Flags[f] ELSE \E i \in DOMAIN FirstHops[o] : FirstHops[o][i] = f)
         /\ CreateCircuit(o, g, f, IF g = 1 THEN <<>> ELSE SelectSeq(FirstHops[o], LAMBDA x : x # f))
   \/ \E o \in Origins, cid \in 1..ctr.cid : SendData(o, cid, "outside")
+  \/ TestCells /\ \E o \in Origins, cid \in 1..ctr.cid : SendTest(o, cid)
   \/ E2E /\ \E o \in Origins, cid \in 1..ctr.cid : SendE2E(o, cid)
   \/ E2E /\ \E rp \in Node, c1, c2 \in 1..ctr.cid, o1, o2 \in Origins, k1, k2 \in 1..ctr.cid :
         hist.links = {} /\ o1 # o2 /\ hist.sent = EmptyF /\ CState(IF Has(circ[o1], k1) THEN circ[o1][k1] ELSE [closing |-> TRUE]) = "READY"
